@@ -1,6 +1,7 @@
 package main
 
 import (
+	"os"
 	"context"
 	"errors"
 	"fmt"
@@ -50,9 +51,29 @@ func ps(code int, props string) string {
 	return fmt.Sprintf(`<D:propstat><D:prop>%s</D:prop><D:status>HTTP/1.1 %d %s</D:status></D:propstat>`, props, code, http.StatusText(code))
 }
 
-// response builds one DAV:response; mand = properties the call cannot do without, opt = optional ones
-func response(href, mand, opt, place string) string {
+// response builds one DAV:response; mand = properties the call cannot do without, opt = the first optional one,
+// more = further optional properties the call reads
+func response(href, mand, opt, place string, more ...string) string {
 	status := ""
+	extra := strings.Join(more, "")
+	var k, xcode int
+	if n, _ := fmt.Sscanf(place, "x%df%d", &k, &xcode); n == 2 {
+		// the k-th property (mandatory ones first, each top-level element counted) alone in a failing propstat
+		all := append(splitProps(mand), splitProps(opt)...)
+		for _, m := range more {
+			all = append(all, splitProps(m)...)
+		}
+		if k < 1 || k > len(all) {
+			fmt.Fprintf(os.Stderr, "place %s: the document for %s has only %d properties\n", place, href, len(all))
+			os.Exit(2)
+		}
+		rest := strings.Join(append(append([]string{}, all[:k-1]...), all[k:]...), "")
+		out := fmt.Sprintf(`<D:response><D:href>%s</D:href>`, href)
+		if rest != "" {
+			out += ps(200, rest)
+		}
+		return out + ps(xcode, all[k-1]) + `</D:response>`
+	}
 	switch place {
 	case "resp404", "resp403", "resp500":
 		code := map[string]int{"resp404": 404, "resp403": 403, "resp500": 500}[place]
@@ -60,15 +81,41 @@ func response(href, mand, opt, place string) string {
 	case "ps403", "ps500":
 		code := map[string]int{"ps403": 403, "ps500": 500}[place]
 		if opt != "" {
-			return fmt.Sprintf(`<D:response><D:href>%s</D:href>%s%s%s</D:response>`, href, ps(200, mand), ps(code, opt), status)
+			return fmt.Sprintf(`<D:response><D:href>%s</D:href>%s%s%s</D:response>`, href, ps(200, mand+extra), ps(code, opt), status)
 		}
-		return fmt.Sprintf(`<D:response><D:href>%s</D:href>%s</D:response>`, href, ps(code, mand))
+		return fmt.Sprintf(`<D:response><D:href>%s</D:href>%s</D:response>`, href, ps(code, mand+extra))
 	case "opt404":
 		if opt != "" {
-			return fmt.Sprintf(`<D:response><D:href>%s</D:href>%s%s</D:response>`, href, ps(200, mand), ps(404, emptied(opt)))
+			return fmt.Sprintf(`<D:response><D:href>%s</D:href>%s%s</D:response>`, href, ps(200, mand+extra), ps(404, emptied(opt)))
 		}
 	}
-	return fmt.Sprintf(`<D:response><D:href>%s</D:href>%s</D:response>`, href, ps(200, mand+opt))
+	return fmt.Sprintf(`<D:response><D:href>%s</D:href>%s</D:response>`, href, ps(200, mand+opt+extra))
+}
+
+// splitProps cuts a concatenation of top-level elements into the single elements
+func splitProps(props string) []string {
+	var out []string
+	depth, start := 0, 0
+	for i := 0; i < len(props); i++ {
+		if props[i] != '<' {
+			continue
+		}
+		end := strings.IndexByte(props[i:], '>') + i
+		tag := props[i : end+1]
+		switch {
+		case strings.HasPrefix(tag, "</"):
+			depth--
+		case strings.HasSuffix(tag, "/>"):
+		default:
+			depth++
+		}
+		if depth == 0 {
+			out = append(out, props[start:end+1])
+			start = end + 1
+		}
+		i = end
+	}
+	return out
 }
 
 // emptied keeps the element names of a property list but drops their content (a 404 propstat carries empty elements)
@@ -88,6 +135,9 @@ func emptied(props string) string {
 	return b.String()
 }
 
+var fileMore = []string{`<D:getcontenttype>text/plain</D:getcontenttype>`, `<D:getlastmodified>Mon, 01 Mar 2021 12:00:00 GMT</D:getlastmodified>`}
+var objMore = []string{`<D:getlastmodified>Mon, 01 Mar 2021 12:00:00 GMT</D:getlastmodified>`, `<D:getcontentlength>120</D:getcontentlength>`}
+
 const nsDecl = `xmlns:D="DAV:" xmlns:C="urn:ietf:params:xml:ns:caldav" xmlns:A="urn:ietf:params:xml:ns:carddav"`
 
 const icalText = "BEGIN:VCALENDAR\r\nVERSION:2.0\r\nPRODID:-//x//y//EN\r\nBEGIN:VEVENT\r\nUID:u1\r\nDTSTAMP:20200101T000000Z\r\nDTSTART:20200101T000000Z\r\nEND:VEVENT\r\nEND:VCALENDAR\r\n"
@@ -103,22 +153,26 @@ func validBody(m, place string) (body string, hdr map[string]string) {
 	case "dav.FindCurrentUserPrincipal":
 		return ms(response("/", `<D:current-user-principal><D:href>/p/</D:href></D:current-user-principal>`, "", place)), nil
 	case "dav.Stat":
-		return ms(response("/f", `<D:resourcetype/><D:getcontentlength>3</D:getcontentlength>`, etag, place)), nil
+		return ms(response("/f", `<D:resourcetype/><D:getcontentlength>3</D:getcontentlength>`, etag, place, fileMore...)), nil
 	case "dav.ReadDir":
 		return ms(response("/d/", `<D:resourcetype><D:collection/></D:resourcetype>`, "", "none") +
-			response("/d/f", `<D:resourcetype/><D:getcontentlength>3</D:getcontentlength>`, etag, place)), nil
+			response("/d/f", `<D:resourcetype/><D:getcontentlength>3</D:getcontentlength>`, etag, place, fileMore...)), nil
 	case "cal.FindCalendarHomeSet":
 		return ms(response("/p/", `<C:calendar-home-set><D:href>/p/cal/</D:href></C:calendar-home-set>`, "", place)), nil
 	case "card.FindAddressBookHomeSet":
 		return ms(response("/p/", `<A:addressbook-home-set><D:href>/p/card/</D:href></A:addressbook-home-set>`, "", place)), nil
 	case "cal.FindCalendars":
-		return ms(response("/p/cal/c/", `<D:resourcetype><D:collection/><C:calendar/></D:resourcetype>`, `<D:displayname>n</D:displayname>`, place)), nil
+		return ms(response("/p/cal/c/", `<D:resourcetype><D:collection/><C:calendar/></D:resourcetype>`, `<D:displayname>n</D:displayname>`, place,
+			`<C:calendar-description>d</C:calendar-description>`, `<C:max-resource-size>1000</C:max-resource-size>`,
+			`<C:supported-calendar-component-set><C:comp name="VEVENT"/></C:supported-calendar-component-set>`)), nil
 	case "card.FindAddressBooks":
-		return ms(response("/p/card/b/", `<D:resourcetype><D:collection/><A:addressbook/></D:resourcetype>`, `<D:displayname>n</D:displayname>`, place)), nil
+		return ms(response("/p/card/b/", `<D:resourcetype><D:collection/><A:addressbook/></D:resourcetype>`, `<D:displayname>n</D:displayname>`, place,
+			`<A:addressbook-description>d</A:addressbook-description>`, `<A:max-resource-size>1000</A:max-resource-size>`,
+			`<A:supported-address-data><A:address-data-type content-type="text/vcard" version="3.0"/></A:supported-address-data>`)), nil
 	case "cal.QueryCalendar", "cal.MultiGetCalendar":
-		return ms(response("/p/cal/c/o.ics", `<C:calendar-data>`+icalText+`</C:calendar-data>`, etag, place)), nil
+		return ms(response("/p/cal/c/o.ics", `<C:calendar-data>`+icalText+`</C:calendar-data>`, etag, place, objMore...)), nil
 	case "card.QueryAddressBook", "card.MultiGetAddressBook":
-		return ms(response("/p/card/b/o.vcf", `<A:address-data>`+vcardText+`</A:address-data>`, etag, place)), nil
+		return ms(response("/p/card/b/o.vcf", `<A:address-data>`+vcardText+`</A:address-data>`, etag, place, objMore...)), nil
 	case "card.SyncCollection":
 		return ms(response("/p/card/b/o.vcf", etag, "", place) + `<D:sync-token>tok2</D:sync-token>`), nil
 	case "cal.GetCalendarObject":
